@@ -8,7 +8,7 @@
     (TraverseSchema) and the construction of DFAContentModel from the converted tree (including the counting states
     used for the compact Loop form, whose intended semantics is the clause for [CLoop] in [Lc]) are tied to the code
     by the correspondence run only. *)
-From XV Require Import C08.Spec08 C08.Model08 C08.ModelDfa08 C08.Proofs08a C08.Proofs08b C08.Proofs08c C08.Proofs08d C08.Proofs08e C08.Proofs08f.
+From XV Require Import C08.Spec08 C08.Model08 C08.ModelDfa08 C08.Proofs08a C08.Proofs08b C08.Proofs08c C08.Proofs08d C08.Proofs08e C08.Proofs08f C08.Proofs08g C08.Proofs08h.
 
 Notation u1 := 1%N. Notation u2 := 2%N. Notation u3 := 3%N. Notation u4 := 4%N.
 
@@ -217,3 +217,67 @@ Example T08_dfa_overlap_example :
   dfa_valid 500 p [a;a;a;x;x;x] = 0 /\ pmatch p [a;a;a;x;x;x] = false /\
   dfa_valid 500 p [a;a;x] = 0 /\ pmatch p [a;a;x] = false.
 Proof. cbv zeta. repeat split; vm_compute; reflexivity. Qed.
+
+(** substitution groups: SubstitutionGroupComparator::isEquivalentTo (walk over the substitution-group affiliations to
+    find the head, block=substitution on the head, walk from the member's type to the head's type accumulating the
+    derivation methods and the block sets of head element + every type above the member's type up to the head's type)
+    decides exactly 3.3.6 Substitution Group OK (Transitive), for every affiliation chain, type chain and block sets *)
+Theorem T08_subst : forall member head affil hb ht up,
+  m_subst member head affil hb ht up = true <-> subst_ok member head affil hb ht up.
+Proof. exact m_subst_correct. Qed.
+Print Assumptions T08_subst.
+
+Theorem T08_subst_dec : forall member head affil hb ht up,
+  subst_okb member head affil hb ht up = true <-> subst_ok member head affil hb ht up.
+Proof. exact subst_okb_correct. Qed.
+Print Assumptions T08_subst_dec.
+
+Example T08_subst_nonvacuous :
+  let none := {| bk_ext := false; bk_restr := false |} in
+  let bext := {| bk_ext := true; bk_restr := false |} in
+  let nb := {| eb_types := none; eb_subst := false |} in
+  (* member type 3 -restriction-> 2 -extension-> 1 = head type *)
+  let up b3 b2 b1 := [(3%N, DRestr, b3); (2%N, DExt, b2); (1%N, DRestr, b1)] in
+  m_subst 9 8 [7%N; 8%N] nb 1 (up none none none) = true /\
+  m_subst 9 8 [7%N; 8%N] nb 1 (up bext none none) = true /\       (* the member type's own block does not count *)
+  m_subst 9 8 [7%N; 8%N] nb 1 (up none bext none) = false /\      (* an intermediate type's block does *)
+  m_subst 9 8 [7%N; 8%N] nb 1 (up none none bext) = false /\      (* and the head type's *)
+  m_subst 9 8 [7%N; 8%N] {| eb_types := bext; eb_subst := false |} 1 (up none none none) = false /\
+  m_subst 9 8 [7%N; 8%N] {| eb_types := none; eb_subst := true |} 1 (up none none none) = false /\
+  m_subst 9 8 [7%N] nb 1 (up none none none) = false /\
+  m_subst 8 8 [] {| eb_types := bext; eb_subst := true |} 1 [] = true.
+Proof. cbv zeta. repeat split; vm_compute; reflexivity. Qed.
+
+(** attribute wildcards: what attWildCardIntersection / attWildCardUnion compute allows exactly the namespaces allowed
+    by both / by either operand (3.10.6), they give up exactly in the cases the Recommendation calls not expressible,
+    and so does every combination evaluated the way the complete wildcard of a complex type is built *)
+Theorem T08_attwildcard_intersection : forall r c,
+  (forall w, m_wc_inter r c = Some w -> is_wc_intersection w r c) /\
+  (m_wc_inter r c = None <-> inter_not_expressible r c).
+Proof. intros r c. split; [intros w; apply wc_inter_sound|apply wc_inter_none]. Qed.
+Print Assumptions T08_attwildcard_intersection.
+
+Theorem T08_attwildcard_union : forall r c,
+  (forall w, m_wc_union r c = Some w -> is_wc_union w r c) /\
+  (m_wc_union r c = None <-> union_not_expressible r c).
+Proof. intros r c. split; [intros w; apply wc_union_sound|apply wc_union_none]. Qed.
+Print Assumptions T08_attwildcard_union.
+
+Theorem T08_attwildcard : forall e w, m_wexpr e = Some w -> forall x, wildcard_allows w x = wexpr_allows e x.
+Proof. exact m_wexpr_sound. Qed.
+Print Assumptions T08_attwildcard.
+
+Example T08_attwildcard_nonvacuous :
+  m_wexpr (WInter (WLeaf (NsNot u2)) (WLeaf (NsSet [u1; u2; u3]))) = Some (NsSet [u3]) /\
+  m_wexpr (WUnion (WLeaf (NsNot u2)) (WLeaf (NsSet [u2; u3]))) = Some (NsNot u1) /\
+  m_wexpr (WUnion (WLeaf (NsNot u2)) (WLeaf (NsSet [u1; u3]))) = None /\
+  m_wexpr (WInter (WLeaf (NsNot u2)) (WLeaf (NsNot u3))) = None /\
+  m_wexpr (WUnion (WInter (WLeaf NsAny) (WLeaf (NsSet [u1; u4]))) (WLeaf (NsSet [u2]))) = Some (NsSet [u1; u4; u2]).
+Proof. repeat split; vm_compute; reflexivity. Qed.
+
+(** known finding C08-attwild-anylist on the faithful model: ##any intersected with a namespace list allows nothing *)
+Theorem T08_attwildcard_anylist_refuted :
+  let e := WInter (WLeaf NsAny) (WLeaf (NsSet [u1])) in
+  wexpr_allows e u1 = true /\ exists w, m_wexpr_faithful e = Some w /\ wildcard_allows w u1 = false.
+Proof. cbv zeta. split; [reflexivity|]. exists (NsSet []). split; reflexivity. Qed.
+Print Assumptions T08_attwildcard_anylist_refuted.
